@@ -171,6 +171,31 @@ class Run(object):
     def namespace(self):
         run = self
 
+        class ProbingSeq(object):
+            def __init__(s, vals, k):
+                s.vals = vals
+                s.k = k
+
+            def __iter__(s):
+                run.trace.append(("iter", s.k))
+                if run.probe_cb is not None:
+                    run.probe_cb(("unpack-iter", s.k))
+                return iter(s.vals)
+
+        class DelProbe(object):
+            def __init__(s, k):
+                s.k = k
+
+            def __del__(s):
+                try:
+                    run.trace.append(("del", s.k))
+                    if run.probe_cb is not None:
+                        run.probe_cb(("result-del", s.k))
+                except BaseException:
+                    # exceptions cannot propagate out of __del__; the monitor's own guard has
+                    # already recorded an observer error if there was one
+                    pass
+
         class Base(object):
             def __init__(s, k, shape=None):
                 s.k = k
@@ -190,7 +215,18 @@ class Run(object):
                 return "<%s k=%d #%d>" % (type(s).__name__, s.k, s.serial)
 
             def _ret(s):
-                return s if s.shape is None else build_value(s.shape)
+                if s.shape is None:
+                    if getattr(s, "dropret", False) and run.probe_cb is not None:
+                        # the with statement has no `as` target: the result is dropped by the very first
+                        # instruction of the with body's exception-table range, running __del__ from C
+                        return DelProbe(s.k)
+                    return s
+                v = build_value(s.shape)
+                if run.probe_cb is not None and isinstance(v, tuple):
+                    # unpacking targets: the frame calls __iter__ (Python code reached through C) from
+                    # the first instruction of the with body's range
+                    return ProbingSeq(v, s.k)
+                return v
 
             def _swallow(s, e):
                 return bool(s.sw and e[0] is not None and not issubclass(e[0], (LoopLimit, GeneratorExit)))
@@ -264,18 +300,20 @@ class Run(object):
             def __len__(s):
                 return 0
 
-        def mkS(k, shape=None):
+        def mkS(k, shape=None, dropret=False):
             cls = SF if run.rng.random() < run.p_falsy else S
             m = cls.__new__(cls)
             Base.__init__(m, k, shape)
+            m.dropret = dropret
             m.owner = id(sys._getframe(1))
             m.tag = (sys._getframe(1).f_lineno, k)
             return m
 
-        def mkA(k, shape=None):
+        def mkA(k, shape=None, dropret=False):
             cls = AF if run.rng.random() < run.p_falsy else A
             m = cls.__new__(cls)
             Base.__init__(m, k, shape)
+            m.dropret = dropret
             m.owner = id(sys._getframe(1))
             m.tag = (sys._getframe(1).f_lineno, k)
             return m
@@ -290,7 +328,7 @@ class Run(object):
         ns_obj.meth = FN
 
         return dict(
-            S=mkS, A=mkA, P=self.P, D=self.D, R=self.R, M=self.M, T=self.T, TL=self.TL, V=self.V, CHK=self.CHK,
+            S=mkS, A=mkA, P=self.P, CP=__import__("functools").partial(self.P), D=self.D, R=self.R, M=self.M, T=self.T, TL=self.TL, V=self.V, CHK=self.CHK,
             sus=self.sus, pre=self.pre, post=self.post,
             E1=E1, E2=E2, LoopLimit=LoopLimit,
             NS=ns_obj, ARR=[None] * 8, DCT={}, FN=FN, LFN=FN, IDX=2, KEY="key", sys=sys,
